@@ -64,10 +64,14 @@ GARBAGE_PID = 0x4242
 _GEN: Optional[msggen.Gen] = None
 
 
+_SEED = 0
+
+
 def gen() -> msggen.Gen:
+    """VERIF_SEED only picks the filler constants inside msggen's alphabets; the enumerated shape is seed-independent."""
     global _GEN
-    if _GEN is None:
-        _GEN = msggen.Gen(0)
+    if _GEN is None or _GEN.seed != _SEED:
+        _GEN = msggen.Gen(_SEED)
     return _GEN
 
 
@@ -359,6 +363,17 @@ class Harness:
         return out
 
 
+def _norm(dec):
+    """ACK flag with an empty ack list (a trailing count byte of 0) is the same datagram content as no ACK flag."""
+    name, flags, pid, acks, extra, body = dec
+    return (name, (flags & ~0x10) | (0x10 if acks else 0), pid, acks, extra, body)
+
+
+def _norm_hdr(h):
+    flags, pid, off, acks = h
+    return ((flags & ~0x10) | (0x10 if acks else 0), pid, off, acks)
+
+
 def garbage_site(ev) -> str:
     k = ev[0]
     extra = [str(e) for e in ev[2:] if isinstance(e, str)]
@@ -372,10 +387,10 @@ def garbage_site(ev) -> str:
 def check_valid(bad, i: int, j: int, direction: str, lludp: bytes, sends, exn, site: str, counts: Optional[Part] = None):
     """Oracle for one valid datagram of association i on circuit (i, j)."""
     try:
-        want = U.decode(lludp)
+        want = _norm(U.decode(lludp))
     except Exception as e:  # the harness built an undecodable 'valid' message: harness bug, not a finding
         raise RuntimeError(f"harness generated an undecodable valid datagram for {site}: {e!r}")
-    want_hdr = U.header_fields(lludp)
+    want_hdr = _norm_hdr(U.header_fields(lludp))
     peer = U.SIMS[j] if direction == OUT else U.VIEWERS[i]
     decoded = []
     for a, data, addr in sends:
@@ -385,7 +400,7 @@ def check_valid(bad, i: int, j: int, direction: str, lludp: bytes, sends, exn, s
             if un is not None:
                 wrap, payload = (un[0], un[2]), un[1]
         try:
-            got = U.decode(payload)
+            got = _norm(U.decode(payload))
         except Exception as e:
             got = ("<undecodable>", repr(e))
         decoded.append((a, addr, wrap, payload, got))
@@ -406,7 +421,7 @@ def check_valid(bad, i: int, j: int, direction: str, lludp: bytes, sends, exn, s
         bad("content-intact", site, f"sent {want!r}\nforwarded {got!r}")
     else:
         try:
-            hdr = U.header_fields(payload)
+            hdr = _norm_hdr(U.header_fields(payload))
         except Exception as e:
             hdr = repr(e)
         if hdr != want_hdr:
@@ -524,7 +539,7 @@ def _types_worker(item):
     part.count("evaluations")
     part.count("types_cases")
     for v in types_case(name, k, direction, part):
-        part.violation(v["clause"], v["site"], {"kind": "types", "name": name, "row": k, "dir": direction}, v["detail"])
+        part.violation(v["clause"], v["site"], {"kind": "types", "name": name, "row": k, "dir": direction, "seed": _SEED}, v["detail"])
     return part.dump()
 
 
@@ -537,13 +552,16 @@ def _interleave_worker(item):
     w = h.fresh()
     viols = list(w.violations)
     for ev in hist:
+        if ev not in h.enabled(w):  # e.g. "no circuit yet" garbage after the valid event opened that circuit
+            part.count("interleavings_not_enabled")
+            return part.dump()
         w.violations = []
         h.step(w, ev)
         viols.extend(w.violations)
     part.outcome(("interleave", tuple(e[0] for e in hist), w.last))
     part.mark_nontrivial(("interleave", base, hist))
     for v in viols:
-        part.violation(v["clause"], v["site"], {"kind": "interleave", "base": base, "history": [list(e) for e in hist]}, v["detail"])
+        part.violation(v["clause"], v["site"], {"kind": "interleave", "base": base, "history": [list(e) for e in hist], "seed": _SEED}, v["detail"])
     return part.dump()
 
 
@@ -567,8 +585,9 @@ def interleavings(base: str):
 
 # ---- entry points ------------------------------------------------------------------------------------------------------
 def run(run: Run):
-    global _BANNED
+    global _BANNED, _SEED
     _BANNED = banned_names()
+    _SEED = int(run.seed)
     quick = run.tier == "quick"
     depth = 4 if quick else 5
     devb = 2 if quick else 3
@@ -583,6 +602,7 @@ def run(run: Run):
         "a UseCircuitCode with the right session id to an unregistered address may claim the session (documented by the repo's test_bad_circuit_not_sent)",
         "packet-id wrap-around and circuits closed by CloseCircuit/DisableSimulator are outside the BFS alphabet (the all-types sweep sends them once)",
         "HOME viewer-cache scan, per-association re-parse of message.xml and multiprocessing queues are neutralised by hmc.udpharness (environment isolation)",
+        "the ACK flag with zero appended acks is treated as equal to no ACK flag (the proxy normalises it away)",
         "all-types sweep uses hmc.msggen value rows (each alphabet element of each variable once), not the full value cross product",
     ]
     # 1. explicit-state search
@@ -593,6 +613,7 @@ def run(run: Run):
             if isinstance(v["witness"], dict) and "kind" not in v["witness"]:
                 v["witness"]["kind"] = "bfs"
                 v["witness"]["base"] = base
+                v["witness"]["seed"] = _SEED
     for v in run.violations:
         wt = v["witness"]
         if isinstance(wt, dict) and wt.get("kind") == "bfs":
@@ -644,8 +665,9 @@ def run(run: Run):
 
 
 def replay(witness):
-    global _BANNED
+    global _BANNED, _SEED
     _BANNED = banned_names()
+    _SEED = int(witness.get("seed", 0))
     kind = witness.get("kind", "bfs")
     if kind in ("bfs", "interleave"):
         return Harness(2, witness.get("base", "empty")).run_history([tuple(e) for e in witness["history"]])
